@@ -106,6 +106,9 @@ def gen_manifest_case(rng) -> dict:
         upd = rng.choice([None, 0, 1, 2, 3])
         reqs.append({"u": "m", "seg": upd, "bare": rng.random() < .1,
                      "now": now.strftime("%Y-%m-%dT%H:%M:%S.%fZ")})
+    # one client, one clock: time does not run backwards (a session cookie signed "in the
+    # future" is discarded by itsdangerous, which would restart the counters)
+    reqs.sort(key=lambda r: r["now"])
     case["reqs"] = reqs
     case["single"] = len(case["merr"]) == 1
     return case
